@@ -68,6 +68,20 @@ class C10(Check):
         # a read_namespace group per root (also the reference for read_files equality)
         for ri in range(nroots):
             groups.append(self._rn_group(rng, uni, ri, fault=None))
+        if rng.random() < 0.35 and not self._has_samename(uni, range(nroots)):
+            # callers reuse their argument lists: ONE list object holding all roots is passed as lookup_directories to the
+            # reads of every root, in sequence
+            g = {"kind": "rn", "ops": [], "shared": True}
+            order = list(range(nroots)) * 2
+            rng.shuffle(order)
+            for ri in order:
+                g["ops"].append({"op": "rn", "root": self._arg(rng, uni, ri), "lookups": [{"p": uni.roots[x]["dir"]} for x in range(nroots)],
+                                 "share_lookups": "all-roots", "key": rng.randrange(1 << 30), "cwd": ""})
+            groups.append(g)
+        if rng.random() < 0.35:
+            g = self._evolve_group(rng, uni)
+            if g:
+                groups.append(g)
         if mode < 0.25:
             groups.append(self._rn_group(rng, uni, rng.randrange(nroots), fault=rng.choice(["nested_sub", "nested_parent", "case", "same", "case_ok"])))
         nrf = rng.randint(1, 2)
@@ -141,6 +155,24 @@ class C10(Check):
         if fault_arg is not None and fault_arg.get("mk"):
             g["mkdirs"] = [fault_arg["p"]]
         return g
+
+    def _evolve_group(self, rng, uni: Universe) -> dict | None:
+        """The workspace changes between two reads of the same root in one process: definitions that nothing references are
+        absent at first and appear later (new nested namespaces included), or the other way round."""
+        nroots = len(uni.roots)
+        ri = rng.randrange(nroots)
+        keys = uni.keys_of_root(ri)
+        referenced = {r0 for k0 in uni.defs for r0 in T.def_refs(uni.defs[k0])}
+        free = [k for k in keys if k not in referenced]
+        # a hidden definition must not be the only other version that keeps a family consistent: hiding only removes
+        # constraints, so any subset of unreferenced definitions may be hidden
+        if not free or len(keys) < 2:
+            return None
+        hidden = rng.sample(free, rng.randint(1, min(2, len(free))))
+        look = sorted(self._needed_roots(uni, keys, {ri}) | {x for x in range(nroots) if x != ri and rng.random() < 0.3})
+        mk = lambda: {"op": "rn", "root": self._arg(rng, uni, ri), "lookups": [self._arg(rng, uni, x) for x in look], "key": rng.randrange(1 << 30), "cwd": rng.choice(["", "w"])}
+        order = rng.choice(["appear", "vanish"])
+        return {"kind": "evolve", "root": ri, "hidden": hidden, "order": order, "ops": [mk(), mk(), mk()]}
 
     def _has_samename(self, uni, ris) -> bool:
         names = [uni.roots[x]["name"].lower() for x in set(ris)]
@@ -227,6 +259,9 @@ class C10(Check):
             for gi, g in enumerate(scn["groups"]):
                 for p in g.get("mkdirs", []):
                     os.makedirs(w.abs(p), exist_ok=True)
+                if g["kind"] == "evolve":
+                    self._run_evolve(out, w, uni, g, gi, dir_to_root, faults)
+                    continue
                 canons = []
                 variants = set()
                 for oi, op in enumerate(g["ops"]):
@@ -244,7 +279,7 @@ class C10(Check):
                         self._check_rn(out, w, uni, op, res, dir_to_root, rn_canon, where, faults)
                     else:
                         self._check_rf(out, w, uni, op, res, dir_to_root, file_to_key, rn_canon, where)
-                if len(set(canons)) > 1 and not (bool(tw) and g["kind"] == "rn" and any(dir_to_root.get(o["root"]["p"]) == uni.root_of[tw["def"]] for o in g["ops"])):
+                if len(set(canons)) > 1 and not g.get("shared") and not (bool(tw) and g["kind"] == "rn" and any(dir_to_root.get(o["root"]["p"]) == uni.root_of[tw["def"]] for o in g["ops"])):
                     out.fail("C10.invariance", "group %d: %d distinct canonical observations among %d equivalent executions: %s" % (gi, len(set(canons)), len(canons), canons))
                 if len(variants) > 1:
                     multi_variant = True
@@ -252,6 +287,8 @@ class C10(Check):
                 # which of two equal twins survives depends on set order (known finding F7b): reported by C10.complete with
                 # its own signature, not through the cross-hash-seed digest
                 xobs.append(["twin"] if twin_hit else canons)
+            for m in w.mutated_shared_args():
+                out.fail("C10.invariance", "a list passed as lookup_directories to several calls was modified by the calls: " + m, "argument-mutated")
             out.xobs = xobs
             ndirs = len({uni.file_of(k).rsplit("/", 1)[0] for k in uni.defs})
             out.nontrivial = multi_variant and len(uni.defs) >= 3 and ndirs >= 2
@@ -264,6 +301,48 @@ class C10(Check):
         finally:
             w.close()
         return out
+
+    def _run_evolve(self, out, w, uni, g, gi, dir_to_root, faults) -> None:
+        import os
+        import shutil
+        from ..worlds.workspace import classify_exc
+        ri = g["root"]
+        hidden = [k for k in g["hidden"] if k in uni.defs and uni.root_of[k] == ri]
+        referenced = {r0 for k0 in uni.defs for r0 in T.def_refs(uni.defs[k0])}
+        if not hidden or any(k in referenced for k in hidden):
+            raise InvalidScenario("hidden definitions must exist in the root and be unreferenced")
+        faults.add("evolve:" + g["order"])
+        allk = uni.keys_of_root(ri)
+        visible = [k for k in allk if k not in hidden]
+
+        def hide():
+            for k in hidden:
+                p = w.abs(uni.file_of(k))
+                if os.path.exists(p):
+                    os.remove(p)
+                d = os.path.dirname(p)
+                while d != w.abs(uni.roots[ri]["dir"]) and os.path.isdir(d) and not os.listdir(d):
+                    os.rmdir(d)
+                    d = os.path.dirname(d)
+
+        def show():
+            for k in hidden:
+                w.write(uni.file_of(k), w.texts[k])
+        phases = [("hidden", hide, visible), ("shown", show, allk), ("hidden", hide, visible)] if g["order"] == "appear" else [("shown", show, allk), ("hidden", hide, visible), ("shown", show, allk)]
+        try:
+            for (name, act, want), op in zip(phases, g["ops"]):
+                act()
+                res = w.run_read(op)
+                out.stats["reads"] += 1
+                out.obs.append([gi, name, "ok" if res["ok"] else classify_exc(res["exc"])])
+                if not res["ok"]:
+                    out.fail("C10.complete", "group %d (%s, definitions %s %s): valid namespace rejected: %s: %s" % (gi, g["order"], hidden, name, type(res["exc"]).__name__, str(res["exc"])[:300]), "evolve-rejected:" + type(res["exc"]).__name__)
+                    continue
+                got = [str(t) for t in res["direct"]]
+                if got != want:
+                    out.fail("C10.complete", "group %d: after the definitions %s were %s (same process, same directory) read_namespace returned %s, the directory holds %s" % (gi, hidden, name, got, want), "evolve-stale:" + name)
+        finally:
+            show()
 
     def _args(self, op):
         for k in ("root", "lookups", "files", "roots"):
